@@ -290,11 +290,21 @@ def universe(tier: str) -> list[Any]:
     return [json.loads(json.dumps(x)) for x in uniq.values()]   # de-alias shared sub-objects
 
 
+def list_universe() -> list[Any]:
+    """Lists (compared as wholes by the diff): prefixes of each other, permutations, nested, with near-equal scalars."""
+    L: list[Any] = [[], [1], [1, 2], [1, 2, 3], [2, 1], [[1]], [[1], [2]], [[1, 2]], [{'a': 1}], [{'a': 1}, {'a': 2}], [{'a': 1, 'b': None}],
+                    [0], [False], [None], ['']]
+    out: list[Any] = list(L)
+    out += [{'a': x} for x in L] + [{'a': x, 'b': 1} for x in L[:6]] + [{'a': {'a': x}} for x in L[:8]]
+    return [json.loads(json.dumps(x)) for x in out]
+
+
 def diff_laws(tier: str, stats: Stats) -> list[Violation]:
     viols: dict[str, Violation] = {}
     uni = universe(tier)
+    lists = list_universe()
     paths = [(), ('a',), ('b',), ('a', 'a'), ('a', 'b'), ('b', 'a')]
-    for a, b in itertools.product(uni, repeat=2):
+    for a, b in itertools.chain(itertools.product(uni, repeat=2), itertools.product(lists, repeat=2)):
         d = diffs.diff(a, b)
         stats.executions += 1
         stats.states.add(hash(canon(a)))
